@@ -92,6 +92,25 @@ def close(have, want, tol=1e-8):
     return abs(h - w) <= tol * max(1.0, abs(w))
 
 
+def close2(have, want, rtol=1e-8, atol=1e-9):
+    """|have-want| <= atol + rtol*|want| (for quantities truncated at an absolute tolerance)."""
+    have, want = num(have), num(want)
+    if isinstance(have, (tuple, list)) or isinstance(want, (tuple, list)):
+        try:
+            return len(have) == len(want) and all(close2(h, w, rtol, atol) for h, w in zip(have, want))
+        except TypeError:
+            return False
+    try:
+        h, w = float(have), float(want)
+    except (TypeError, ValueError):
+        return False
+    if math.isnan(h) or math.isnan(w):
+        return False
+    if math.isinf(h) or math.isinf(w):
+        return h == w
+    return abs(h - w) <= atol + rtol * abs(w)
+
+
 class Ctx:
     """Recorder for one shard (one worker process)."""
 
